@@ -6,14 +6,14 @@ rows = []
 for d in sorted(glob.glob(V + '/seeded/*/')):
     sid = os.path.basename(d.rstrip('/'))
     meta = {}
-    try: meta = json.load(open(d + 'meta.json'))
+    try: meta = json.load(open(d + 'meta.json', errors='replace'))
     except Exception: pass
     if os.path.exists(d + 'OBSOLETE'):
         rows.append((sid, (meta.get('summary') or '')[:140], 'obsolete: ' + open(d + 'OBSOLETE').read().strip()[:120]))
         continue
     det, miss = [], []
     if os.path.exists(d + 'detect.txt'):
-        for l in open(d + 'detect.txt'):
+        for l in open(d + 'detect.txt', errors='replace'):
             m = re.match(r'\S+ (C\d+) (DETECTED|missed)', l)
             if m: (det if m.group(2) == 'DETECTED' else miss).append(m.group(1))
     verdict = 'detected by ' + ', '.join(det) + ('; missed by ' + ', '.join(miss) if miss else '')
